@@ -30,7 +30,8 @@ def links_from_html(
             continue
 
         # urllib.parse.urljoin lowercases protocol...
-        if not PROTOCOL_RE.match(url):
+        # NOTE: scheme-relative hrefs must be resolved too
+        if not PROTOCOL_RE.match(url) or url.startswith("//"):
             url = urljoin(base_url, url)
 
         if not is_url(
